@@ -203,6 +203,14 @@ for cubic in (True, False):
     it = SplineInterpolator1D(bs)
     fth = rng.rand(nth)
     it.compute_interpolant(fth, sp)
+    # stencils several periods away in either direction (the plane index is wrapped by an integer modulo of a
+    # negative or large number: Python and Fortran/C agree only if the wrap is written as one)
+    for off in (2 * nzz + 3, -3 * nzz - 1, -nzz - 2):
+        sh2 = np.array([-3, -2, -1, 0, 1, 2]) + off
+        v2 = np.zeros((nzz, nth, 6))
+        for i in range(nzz):
+            AA.get_lagrange_vals(i, sh2, v2, qv, 0.3 * rng.randn(6), sp.basis.knots, 3, sp.coeffs, cubic)
+        put('lagrange_vals_far_%s_%d' % (cubic, off), v2)
     shifts = np.array([-3, -2, -1, 0, 1, 2]) + int(rng.randint(-9, 9))
     tsh = 0.3 * rng.randn(6)
     vals = np.zeros((nzz, nth, 6))
